@@ -269,6 +269,13 @@ def shape(ctx: Any) -> List[Ob]:
     ctor = [c for c in walk_local_ordered(b.node) if isinstance(c, ast.Call) and call_name(c) == 'DNSOutgoing']
     okf, fl = prog.try_fold(b.module, ctor[0].args[0]) if ctor else (False, None)
     obs.append(ob(R, b, ctor[0] if ctor else 'DNSOutgoing', 'the announcement is an authoritative response (0x8400), multicast', okf and fl == 0x8400 and len(ctor[0].args) == 1))
+    # conflict detection rests on the owner defending its name: a probe for a record this host owns is answered at once --
+    # a QU probe by unicast to the prober whether or not the record was multicast recently (its cache may be empty: it joined
+    # the link later), a QM probe by multicast now (decision tables shared with C11.ROUTE)
+    from .c11 import mcast_table, qu_answer_table
+
+    obs.extend(qu_answer_table(ctx, R, probes_only=True))
+    obs.extend(o for o in mcast_table(ctx, R) if 'probe=True' in str(o.construct))
     return obs
 
 
